@@ -52,7 +52,7 @@ IO_CLASS = {"path-npz": "path", "path-noext": "path", "pathlib-npz": "path", "pa
             "bytesio-offset": "fileobj", "tempfile-offset": "fileobj",
             # written through a file object opened on a name without ".npz", read back through that very name
             "openfile-noext": "fileobj", "openfile-noext-pathlib": "fileobj"}
-GRADS = ["none", "scalar", "nonscalar", "seed", "seed-bcast", "nulled"]
+GRADS = ["none", "scalar", "nonscalar", "seed", "seed-bcast", "nulled", "scalar-reshaped-untracked"]
 LIVE = ["consumer", "intermediate", "terminal-kept", "reused"]
 VIEW_IDX = ["1:", "::-1", "...", "0", "reshape", "T", ":0", "0d"]
 VIEW_GRAPH = ["base-backward", "view-backward", "no-backward", "base-backward-read", "stale-cache", "both-backward"]
@@ -142,10 +142,14 @@ def build(desc):
         t = mg.tensor(arr, constant=const)
         g = desc["grad"]
         w = _w(rng, shape, mode)
-        if g in ("scalar", "nulled"):
+        if g in ("scalar", "nulled", "scalar-reshaped-untracked"):
             (t * w).sum().backward()
             if g == "nulled":
                 t.null_grad()
+            if g == "scalar-reshaped-untracked":
+                # `.shape =` with tracking suspended re-shapes the tensor and the gradient it holds
+                with mg.no_autodiff:
+                    t.shape = (n,) if len(shape) != 1 else (1, n)
         elif g == "nonscalar":
             (t * w).backward()
         elif g == "seed":
